@@ -1,4 +1,5 @@
 import GMGProofs.Lemmas.SparseLULemmas
+import GMGProofs.Lemmas.SparseLUPivots
 /-!
 # C16 — sparse LU without pivoting solves every system with non-vanishing pivots, any storage order
 
@@ -248,5 +249,107 @@ example (k : Nat) :
   · simp [rowEntries, List.range_succ]
     exact ((List.Perm.swap _ _ _).cons _).trans (List.Perm.swap _ _ _)
   · simp
+
+/-! ## (h) injective leading principal blocks: no zero pivot without any dominance -/
+
+/-- the row identity of `lu_product` for row `i` needs the pivots `m < i` only -/
+theorem lu_product_row_of_lt (A : CSR K) (i k : Nat) (hi : i < A.rows)
+    (hp : ∀ m, m < i → den ((factorRows A).2.getD m []) m ≠ 0) :
+    toDense A i k = ∑ m ∈ range i, den ((factorRows A).1.getD i []) m * den ((factorRows A).2.getD m []) k
+        + den ((factorRows A).2.getD i []) k := SparseLU.lu_product_row_of_lt A i k hi hp
+
+/-- if every leading principal block of `A` is injective, the elimination without pivoting never meets a
+    zero pivot (no hypothesis on `A.cols`, the stored pattern or the storage order) -/
+theorem pivots_of_leading_injective (A : CSR K)
+    (hinj : ∀ k, k < A.rows → ∀ x : ℕ → K,
+      (∀ i, i ≤ k → ∑ m ∈ range (k + 1), toDense A i m * x m = 0) → ∀ m, m ≤ k → x m = 0) :
+    ∀ i, i < A.rows → den ((factorRows A).2.getD i []) i ≠ 0 :=
+  pivots_of_leading_injective_aux A hinj
+
+/-- … hence whenever `solveInPlace` returns, it returns the solution -/
+theorem leading_injective_solve (tiny : K → Bool) (A : CSR K)
+    (hinj : ∀ k, k < A.rows → ∀ x : ℕ → K,
+      (∀ i, i ≤ k → ∑ m ∈ range (k + 1), toDense A i m * x m = 0) → ∀ m, m ≤ k → x m = 0)
+    (b x : List K) (hb : b.length = A.rows)
+    (hs : solve tiny (factorRows A) b = some x) : mulDense A x = b :=
+  lu_solve tiny A (pivots_of_leading_injective A hinj) b x hb hs
+
+/-- the hypothesis matters: `[[0,1],[1,0]]` is invertible, its leading 1×1 block is singular, and the first
+    pivot IS zero (the code would divide by it / exit) -/
+theorem zero_pivot_of_singular_leading_block :
+    let A : CSR K := ⟨2, 2, [1, 1], [1, 0], [0, 1, 2]⟩
+    (∀ x : ℕ → K, (∀ i, i < 2 → ∑ m ∈ range 2, toDense A i m * x m = 0) → ∀ m, m < 2 → x m = 0) ∧
+    den ((factorRows A).2.getD 0 []) 0 = 0 := by
+  intro A
+  have d00 : toDense A 0 0 = 0 := by
+    simp [A, toDense, loadRow, List.range_succ, SparseLU.set, den, SparseLU.get, List.find?]
+  have d01 : toDense A 0 1 = 1 := by
+    simp [A, toDense, loadRow, List.range_succ, SparseLU.set, den, SparseLU.get]
+  have d10 : toDense A 1 0 = 1 := by
+    simp [A, toDense, loadRow, List.range_succ, SparseLU.set, den, SparseLU.get]
+  have d11 : toDense A 1 1 = 0 := by
+    simp [A, toDense, loadRow, List.range_succ, SparseLU.set, den, SparseLU.get, List.find?]
+  constructor
+  · intro x hx m hm
+    have h0 := hx 0 (by omega)
+    have h1 := hx 1 (by omega)
+    simp only [Finset.sum_range_succ, Finset.sum_range_zero, d00, d01, d10, d11] at h0 h1
+    have : m = 0 ∨ m = 1 := by omega
+    rcases this with h | h <;> subst h
+    · simpa using h1
+    · simpa using h0
+  · simp [A, factorRows, List.range_succ, elimRow, loadRow, SparseLU.set, den, SparseLU.get, List.find?]
+
+section PD
+variable {F : Type} [Field F] [LinearOrder F] [IsStrictOrderedRing F]
+
+/-- a positive definite quadratic form (symmetry not needed) ⇒ every pivot is non-zero -/
+theorem pd_pivots (A : CSR F)
+    (hpd : ∀ x : ℕ → F, (∃ m, m < A.rows ∧ x m ≠ 0) → (∀ m, A.rows ≤ m → x m = 0) →
+      0 < ∑ i ∈ range A.rows, x i * ∑ m ∈ range A.rows, toDense A i m * x m) :
+    ∀ i, i < A.rows → den ((factorRows A).2.getD i []) i ≠ 0 :=
+  pivots_of_leading_injective A (leading_injective_of_pd A hpd)
+
+/-- non-vacuity: `[[1,2],[1,1]]` is NOT diagonally dominant (row 0), its leading blocks are injective,
+    and its pivots are `1, -1` -/
+example : let A : CSR F := ⟨2, 2, [1, 2, 1, 1], [0, 1, 0, 1], [0, 2, 4]⟩
+    (∀ k, k < A.rows → ∀ x : ℕ → F,
+      (∀ i, i ≤ k → ∑ m ∈ range (k + 1), toDense A i m * x m = 0) → ∀ m, m ≤ k → x m = 0) ∧
+    ¬ (∀ i, i < A.rows → ∑ k ∈ range 2, (if k = i then 0 else |toDense A i k|) < |toDense A i i|) ∧
+    den ((factorRows A).2.getD 0 []) 0 = 1 ∧ den ((factorRows A).2.getD 1 []) 1 = -1 := by
+  intro A
+  have d00 : toDense A 0 0 = 1 := by
+    simp [A, toDense, loadRow, List.range_succ, SparseLU.set, den, SparseLU.get]
+  have d01 : toDense A 0 1 = 2 := by
+    simp [A, toDense, loadRow, List.range_succ, SparseLU.set, den, SparseLU.get, List.find?]
+  have d10 : toDense A 1 0 = 1 := by
+    simp [A, toDense, loadRow, List.range_succ, SparseLU.set, den, SparseLU.get]
+  have d11 : toDense A 1 1 = 1 := by
+    simp [A, toDense, loadRow, List.range_succ, SparseLU.set, den, SparseLU.get, List.find?]
+  refine ⟨?_, ?_, ?_, ?_⟩
+  · intro k hk x hx m hm
+    have hk' : k = 0 ∨ k = 1 := by simp [A] at hk; omega
+    rcases hk' with h | h <;> subst h
+    · have h0 := hx 0 (le_refl _)
+      simp only [Finset.sum_range_succ, Finset.sum_range_zero, d00] at h0
+      have : m = 0 := by omega
+      subst this; simpa using h0
+    · have h0 := hx 0 (by omega)
+      have h1 := hx 1 (by omega)
+      simp only [Finset.sum_range_succ, Finset.sum_range_zero, d00, d01, d10, d11] at h0 h1
+      have hx1 : x 1 = 0 := by linarith
+      have hx0 : x 0 = 0 := by linarith
+      have : m = 0 ∨ m = 1 := by omega
+      rcases this with h | h <;> subst h <;> assumption
+  · intro h
+    have := h 0 (by simp [A])
+    simp [Finset.sum_range_succ, d00, d01] at this
+  · simp [A, factorRows, List.range_succ, elimRow, loadRow, SparseLU.set, elimStep, den, SparseLU.get,
+      List.find?]
+  · simp [A, factorRows, List.range_succ, elimRow, loadRow, SparseLU.set, elimStep, den, SparseLU.get,
+      List.find?]
+    norm_num
+
+end PD
 
 end C16
